@@ -215,4 +215,25 @@ CLAIMS = {
                 "order keeping is not machine-checked).",
         "note": _TB,
     },
+    "C20": {
+        "level": "other",
+        "technique": "decision-table cross-check against parsed references "
+                     "(FileHandlerFactory option table, factory memoisation, "
+                     "create() wiring, registry operations) + constant-table "
+                     "folding + XML<->Python attribute agreement",
+        "text": "Decides the logger component's own tables and wiring: the "
+                "level table, lower-casing and the 0..50 range test; that "
+                "every attribute a factory reads from its section is "
+                "declared by the section type bound to it in the component "
+                "XML (own or inherited); the file handler factory's option "
+                "table over path class x six option truthinesses; that a "
+                "factory creates once; which logging calls create() makes "
+                "with which configured values and in which order; the "
+                "pairing of the reopen registry; agreement between accepted "
+                "style names and the style table.  Does not decide anything "
+                "the logging package does with these values (rendering, "
+                "rotation, stream state), nor that a format accepted at load "
+                "time never raises when a record is formatted.",
+        "note": _TB,
+    },
 }
